@@ -366,13 +366,13 @@ def tr_add(fn, out, info):
     info["addPlacementLines"] = [block[0].lineno, block[-1].end_lineno] if block else None
     out.append("/-- `GeneratedsSuperSuper.add` with a type argument (generatedssupersuper.py:%d): factory call, placement block\n"
                "    (lines %s, property C10: `Py.place`), final gate -/" % (fn.lineno, info["addPlacementLines"]))
-    out.append("def addByType (T : Table) (C : CtorTable) (env : Env) (strOk : Obj → Bool) (enabled validate : Bool) (self : Obj)\n"
+    out.append("def addByType (sh : PlaceShape) (T : Table) (C : CtorTable) (env : Env) (strOk : Obj → Bool) (enabled validate : Bool) (self : Obj)\n"
                "    (obj : TypeArg) (kwargs : Kwargs) (hint : Option Nat) (force : Bool) (oid : Nat) : AddOutcome :=")
     out.append("  -- obj = self.component_factory(obj, validate=…, **kwargs)")
     out.append("  match componentFactory T C env enabled %s obj kwargs oid with" % flag)
     out.append("  | .error e => ⟨self, none, .error (.inl e)⟩")
     out.append("  | .ok obj =>")
-    out.append("    let placed := Py.place T strOk self obj hint force")
+    out.append("    let placed := Py.place sh T strOk self obj hint force")
     out.append("    match placed.result with")
     out.append("    | .error e => ⟨placed.parent, placed.warn, .error (.inr e)⟩")
     out.append("    | .ok _ =>")
@@ -741,7 +741,7 @@ def regenerate(repo, lean_dir):
         "checkArgList": "def checkArgList (_T : Table) (_self : Obj) (_kwargs : Kwargs) : Except Factory.Err Unit := pure ()\n",
         "componentFactory": "def componentFactory (_T : Table) (_C : CtorTable) (_env : Env) (_enabled _validate : Bool) (_t : TypeArg)\n"
                             "    (_kwargs : Kwargs) (_oid : Nat) : Except Factory.Err Obj := .error .attrError\n",
-        "addByType": "def addByType (_T : Table) (_C : CtorTable) (_env : Env) (_strOk : Obj → Bool) (_enabled _validate : Bool) (self : Obj)\n"
+        "addByType": "def addByType (_sh : PlaceShape) (_T : Table) (_C : CtorTable) (_env : Env) (_strOk : Obj → Bool) (_enabled _validate : Bool) (self : Obj)\n"
                      "    (_obj : TypeArg) (_kwargs : Kwargs) (_hint : Option Nat) (_force : Bool) (_oid : Nat) : AddOutcome :=\n"
                      "  ⟨self, none, .error (.inl .attrError)⟩\n",
         "utilsComponentFactory": "def utilsComponentFactory (_T : Table) (_C : CtorTable) (_env : Env) (_enabled _validate : Bool) (_t : TypeArg)\n"
